@@ -257,3 +257,54 @@ Print Assumptions T14_statement_needs_sched_wf.
 Print Assumptions T14_start_before_create.
 Print Assumptions T14_segments_in_flight.
 Print Assumptions T14_inflight_stable.
+
+(* ------------------------------------------------------------------------------------------------
+   Readers shared between threads ("any number of threads iterating and querying the same open reader
+   through their own iterators").  In the functional model a reader is an immutable value, so nothing
+   can be proved there about the C code; what CAN be decided from the source on every run is the
+   premise that makes the functional model adequate: gen/Ties.v lists (regenerated from /repo)
+     STRUCT_WRITES  - every assignment / increment through a pointer to a structure, and every field
+                      whose address is taken, in mtbl/reader.c and mtbl/block.c, with the function it
+                      occurs in and the structure type of the pointer variable;
+     STATIC_STORAGE - every object with static storage duration that is not const (file-scope
+                      variables and static locals) in the sources of libmtbl.
+   T14r_shared_structs_written_only_at_init: a field of `struct mtbl_reader' is assigned only in
+   mtbl_reader_init_fd (before the reader is published; mtbl_reader_destroy frees it), its address is
+   taken only there, in mtbl_reader_metadata (a const pointer is returned) and - an element of the
+   mapping, read only - in get_block; a field of `struct block' (the index block is shared by all
+   iterators of a reader) is assigned only in block_init; every other write goes through a pointer
+   to a per-iterator structure (reader_iter, block_iter) or to the caller's options.
+   T14r_static_storage: the only non-const static object of the library is the CRC dispatch pointer
+   my_crc32c, written by a constructor (before main, hence before any second thread) with the same
+   value any later call of my_crc32c_first would store.
+   A change that adds a cache to the reader, a static buffer to a decoder or a lazily initialised
+   context breaks one of the two theorems; ThreadSanitizer (engine tsan) then looks for the race. *)
+From Coq Require Import String Ascii.
+From Mtbl Require Import gen.Ties.
+Local Open Scope string_scope.
+
+Definition is_addr (lv : string) : bool := match lv with String c _ => Ascii.eqb c "&"%char | _ => false end.
+Definition sw_ok (w : string * string * string * string) : bool :=
+  let '(file, fn, ty, lv) := w in
+  if String.eqb ty "mtbl_reader" then
+    if is_addr lv then existsb (String.eqb fn) ["mtbl_reader_init_fd"; "mtbl_reader_metadata"; "get_block"]
+    else String.eqb fn "mtbl_reader_init_fd"
+  else if String.eqb ty "block" then String.eqb fn "block_init"
+  else existsb (String.eqb ty) ["reader_iter"; "block_iter"; "mtbl_reader_options"].
+
+Theorem T14r_shared_structs_written_only_at_init : forallb sw_ok STRUCT_WRITES = true.
+Proof. vm_compute. reflexivity. Qed.
+Print Assumptions T14r_shared_structs_written_only_at_init.
+
+Theorem T14r_static_storage : STATIC_STORAGE = [("libmy/crc32c.c", "my_crc32c_fp my_crc32c")].
+Proof. reflexivity. Qed.
+Print Assumptions T14r_static_storage.
+
+(* the rule is not vacuous: it rejects a reader-level cache, a write to the shared index block outside
+   block_init, and a pointer whose type the scan cannot determine *)
+Example T14r_rule_rejects :
+  sw_ok ("mtbl/reader.c", "reader_iter_next", "mtbl_reader", "r->last_block") = false /\
+  sw_ok ("mtbl/block.c", "block_iter_seek", "block", "b->hint") = false /\
+  sw_ok ("mtbl/reader.c", "get_block", "?", "p->x") = false /\
+  (0 < List.length STRUCT_WRITES)%nat.
+Proof. vm_compute. repeat split; apply Nat.lt_0_succ || (repeat constructor). Qed.
